@@ -550,7 +550,7 @@ def store_history(rng, nsteps):
         return app("vector-ref", var(x), lit(j)), lens[x][j]
 
     for step in range(nsteps):
-        ops = ["newcounter", "newacc", "newshared", "newvec", "global", "newloop", "nest"]
+        ops = ["newcounter", "newacc", "newshared", "newvec", "global", "newloop", "nest", "rebind"]
         if loops: ops += ["bumploop", "bumploop"]
         if counters or accs: ops += ["call", "call", "call2"]
         if shared: ops += ["shared", "shared"]
@@ -588,6 +588,23 @@ def store_history(rng, nsteps):
             if rng.random() < 0.5:
                 forms.append(app("vector-set!", app("vector-ref", var(a), lit(0)) if False else var(b), lit(0), lit(rng.randint(10, 99))))
                 forms.append(app("list", var(a), var(b)))
+        elif op == "rebind":
+            # set! to a NEW object that looks exactly like the old one: the variable denotes the new object from then on
+            if rng.random() < 0.5:
+                a, b = "ra%d" % rng.randint(1, 2), "rb%d" % rng.randint(1, 2)
+                k = rng.randint(1, 3); fill = rng.randint(0, 3)
+                forms.append(define(a, app("vector", *[lit(fill)] * k)))
+                forms.append(define(b, var(a)))
+                forms.append(set_(b, app("vector", *[lit(fill)] * k) if rng.random() < 0.5 else app("make-vector", lit(k), lit(fill))))
+                forms.append(app("vector-set!", var(b), lit(rng.randrange(k)), lit(rng.randint(10, 99))))
+                forms.append(app("list", var(a), var(b)))
+            else:
+                c = "rc%d" % rng.randint(1, 2)
+                forms.append(define(c, app("make-counter")))
+                for _ in range(rng.randint(1, 3)):
+                    forms.append(app(c))
+                forms.append(set_(c, app("make-counter")))
+                forms.append(app(c))
         elif op == "newacc":
             n = "a%d" % rng.randint(1, 3)
             forms.append(define(n, app("make-acc", lit(rng.randint(0, 9)))))
